@@ -2,10 +2,10 @@
 # usage: confirm_all.sh C13 C14 ...   (sequential; shared target dir removed at the end)
 for p in "$@"; do
   for n in 1 2; do
-    d=/tmp/seed-$p/SEED$n
+    d=${SEED_PREFIX:-/tmp/seed-}$p/SEED$n
     [ -f $d/patch.diff ] || continue
-    [ -f /verif/work/confirm/$p-$n.json ] && continue
-    python3 /verif/tools/confirm_seed.py /tmp/seed-$p $d /verif/work/confirm/$p-$n.json
+    [ -f /verif/work/confirm/${SEED_TAG:-}$p-$n.json ] && continue
+    python3 /verif/tools/confirm_seed.py ${SEED_PREFIX:-/tmp/seed-}$p $d /verif/work/confirm/${SEED_TAG:-}$p-$n.json
   done
 done
 rm -rf /tmp/confirm-target
